@@ -253,3 +253,39 @@ func (s *Sys) quiescentOnce(o QuiesceOpts, loopPassed func(job string, cnt, last
 	// re-validate: no cancel spawned meanwhile
 	return true, v, ""
 }
+
+// WaitCancelsDelivered waits (bounded) until every stop that was initiated (hook H2: cancel goroutine about to be spawned)
+// has reached its runner. A driver that ends its run by polling job states - not by a logical quiescence - calls this
+// before it reads the event log: the job may have ended before the spawned goroutine got the CPU, and an oracle over the
+// log must not take "not yet" for "never". Returns false if some stop is still undelivered after the bound.
+func (s *Sys) WaitCancelsDelivered(bound time.Duration) bool {
+	deadline := time.Now().Add(bound)
+	for {
+		spawned := map[string]int{}
+		entered := map[string]int{}
+		s.Log.mu.Lock()
+		for i := range s.Log.evs {
+			switch e := &s.Log.evs[i]; e.Kind {
+			case KCancelSpawned:
+				spawned[e.Job]++
+			case KCancelEnter:
+				entered[e.Job]++
+			}
+		}
+		s.Log.mu.Unlock()
+		all := true
+		for j, n := range spawned {
+			if entered[j] < n {
+				all = false
+				break
+			}
+		}
+		if all {
+			return true
+		}
+		if time.Now().After(deadline) {
+			return false
+		}
+		time.Sleep(200 * time.Microsecond)
+	}
+}
